@@ -20,8 +20,18 @@ def _binds(nodes, name):
         if isinstance(n, (ast.FunctionDef, ast.AsyncFunctionDef, ast.ClassDef)):
             if n.name == name:
                 return True
+            # the header is evaluated in the scope that holds the statement: defaults, decorators, bases
+            todo.extend(n.decorator_list)
+            if isinstance(n, ast.ClassDef):
+                todo.extend(n.bases)
+                todo.extend(k.value for k in n.keywords)
+            else:
+                todo.extend(n.args.defaults)
+                todo.extend(k for k in n.args.kw_defaults if k is not None)
             continue
         if isinstance(n, ast.Lambda):
+            todo.extend(n.args.defaults)
+            todo.extend(k for k in n.args.kw_defaults if k is not None)
             continue
         if isinstance(n, ast.Name) and isinstance(n.ctx, ast.Store) and n.id == name:
             return True
